@@ -55,6 +55,9 @@ Whys(e) ==
                 ELSE "P:C16:default-character-recipe-returned-an-ambiguous-or-foreign-character">>
     [] e.op = "classex" ->
          <<IF e.alpha = SortedSeq(FlagChars(15) \ FlagChars(e.flag)) THEN "ok" ELSE "P:C16:built-in-character-class-differs-from-the-documented-one">>
+    [] e.op = "newwlafter" ->     \* the constructor's recipe on a shipped list that capitalising recipes have used before
+         <<IF e.cap = "none" /\ e.sepChar = <<>> /\ e.sepFuncNil = 1 /\ e.foreign = 0 /\ e.seps = 0 /\ e.atoms = 1200 THEN "ok"
+           ELSE "P:C16:NewWLRecipe-defaults-are-not-no-capitalisation-and-no-separator">>
     [] e.op = "newwl" ->
          <<IF e.len = e.k /\ e.cap = "none" /\ e.sepChar = <<>> /\ e.sepFuncNil = 1 /\ e.size = 3 THEN "ok"
            ELSE "P:C16:NewWLRecipe-defaults-are-not-no-capitalisation-and-no-separator">>
